@@ -1,6 +1,6 @@
 #!/bin/bash
 # tools/run_all.sh [tier] : run every claimed check, print one summary line each
-cd /verif
+cd "$(dirname "$0")/.."
 tier=${1:-quick}
 for id in C01 C02 C03 C04 C05 C06 C07 C08 C09 C10 C11 C12 C13 C14 C15 C16 C17; do
   s=$(date +%s); out=$(./check $id $tier 2>&1); rc=$?; e=$(date +%s)
